@@ -818,6 +818,188 @@ def overload_sweep(reg, rng, tier):
 
 
 # ------------------------------------------------------------------------------------------------
+# Stream "arity": EVERY registered function name (the specially compiled ones included: coalesce, getitem, meta,
+# entry_meta, any_meta) called with every argument count from none to one more than its longest signature, on the tables
+# where the call is legal.  The argument lists are prefixes / extensions of the DECLARED signatures (well typed as far
+# as they go), so what decides validity is the number of arguments.  Expected validity from the generator's own lookup.
+
+ARITY_CONTEXTS = ['SELECT {call}{frm}', 'SELECT {call}{frm}', 'SELECT 1{frm} WHERE {call} IS NULL', 'SELECT count({call}){frm}',
+                  'SELECT 1, count(*){frm} GROUP BY 1 HAVING count({call}) > 0', 'SELECT coalesce({call}){frm}',
+                  'SELECT 1{frm} ORDER BY {call}']
+
+
+def _meta_legal(reg, name, cols):
+    """Is the one-argument call of a metadata access function legal on a table with these columns?
+    meta(k) = getitem(meta, k); entry_meta(k) = getitem(entry.meta, k); any_meta(k) needs both."""
+    cols = dict(cols)
+
+    def own():
+        return 'meta' in cols and reg.flookup(reg.functions, 'getitem', [cols['meta'], 'str']) is not None
+
+    def entry():
+        attrs = dict(reg.attrs(cols['entry']) or []) if 'entry' in cols else {}
+        return 'meta' in attrs and reg.flookup(reg.functions, 'getitem', [attrs['meta'], 'str']) is not None
+    return {'meta': own, 'entry_meta': entry, 'any_meta': lambda: own() and entry()}[name]()
+
+
+def arity_sweep(reg, rng, tier):
+    out = []
+    ptype = {}
+    for text, ty in PROBES:
+        ptype.setdefault(text, ty)
+    ptype.update({'x': 'Decimal', 'd': 'date', '*': '*', "'k'": 'str'})
+    probe = {}
+    for text, ty in PROBES:
+        probe.setdefault(ty, text)
+    # prefer columns to literals: a call over columns is not folded at compile time
+    probe.update({'int': 'a', 'str': 'b', 'bool': 'f', 'date': 'd', 'Decimal': 'x', 'any': 'a', '*': '*'})
+    columns = ('a', 'b', 'f', 'd', 'x', 's', 'm', 'o', 'p', 'am', 'inv')
+
+    def add(name, call, frm, valid, nargs, ctx=None):
+        ctx = ctx or (ARITY_CONTEXTS[0] if rng.random() < 0.6 else rng.choice(ARITY_CONTEXTS))
+        out.append(dict(rule=f'arity:{name}:{nargs}', text=ctx.format(call=call, frm=frm), params=None,
+                        expect='accept' if valid else 'reject', arity=nargs, fname=name))
+
+    surplus = ['1', "'k'", 'a', 'b', 'NULL']
+    for name, ovs in reg.functions.items():
+        if name in c05gen.META_FUNCS:
+            continue
+        longest = max(len(ov[1]) for ov in ovs)
+        seen = set()
+        for ov in ovs:
+            base = [probe[t] for t in ov[1]]
+            for n in range(0, longest + 2):
+                extra = ['*', '1'] if base[:1] == ['*'] else surplus
+                args = base[:n] + [rng.choice(extra) for _ in range(n - len(base))]
+                if tuple(args) in seen:
+                    continue
+                seen.add(tuple(args))
+                if name in c05gen.PARTIAL_FUNCS and args and not any(a in columns for a in args):
+                    continue     # constant-only call of a partial function: folded at compile time
+                got = reg.flookup(reg.functions, name, [ptype[a] for a in args])
+                # an aggregate is legal in a target only: the other contexts are for row-level calls
+                add(name, f'{name}({", ".join(args)})', ' FROM #t', got is not None, n,
+                    ARITY_CONTEXTS[0] if any(o[4] for o in ovs) else None)
+    # coalesce: any positive number of arguments of one type
+    for text, ty in PROBES:
+        if ty == 'NoneType':
+            continue
+        for n in range(0, 4):
+            add('coalesce', f'coalesce({", ".join([text] * n)})', ' FROM #t', n > 0, n)
+    # the metadata access functions on every table on which the one-argument call is legal (and on tables where it is not)
+    postings = reg.tables['postings'][0]
+    tabs = [('', postings), (' FROM year = 2020', postings)]
+    tabs += [(f' FROM #{n}', cols) for n, (cols, _) in reg.tables.items() if n]
+    tabs += [(f' FROM #{n}', cols) for n, cols in USER_TABLES]
+    keys = ["'kk'", '"note"', '1', 'NULL', 'date']
+    for name in c05gen.META_FUNCS:
+        for frm, cols in tabs:
+            legal = _meta_legal(reg, name, cols)
+            if not legal and rng.random() < 0.5:
+                continue
+            for n in range(0, 4):
+                args = ([keys[0]] + [rng.choice(keys) for _ in range(n - 1)]) if n else []
+                every = legal and n != 1 and (tier != 'quick' or frm in ('', ' FROM #entries'))
+                for ctx in (ARITY_CONTEXTS[1:] if every else [ARITY_CONTEXTS[0]]):
+                    add(name, f'{name}({", ".join(args)})', frm, legal and n == 1, n, ctx)
+            if legal:           # nested in other calls and operators
+                for n in (0, 2):
+                    args = ', '.join([keys[0]] * n)
+                    add(name, f'str({name}({args}))', frm, False, n, ARITY_CONTEXTS[0])
+                    add(name, f'{name}({args}) = 1', frm, False, n, ARITY_CONTEXTS[0])
+    return out
+
+
+# ------------------------------------------------------------------------------------------------
+# Stream "sibling": a table (or FROM-subquery) with SEVERAL columns of one datatype; one of them is a target, another
+# one is a GROUP BY / ORDER BY key that is not a target.  The key is a different column than the target whatever their
+# datatypes: a statement grouped by the sibling leaves the target uncovered (ill-formed), a statement grouped by both
+# has a hidden key (well-formed; the model says which target index the key resolves to).
+
+SIBLING_SUBQUERIES = [
+    # (FROM text, [(column, type)])
+    ('(SELECT a, a2, b, b2, x, d, f FROM #t)',
+     [('a', 'int'), ('a2', 'int'), ('b', 'str'), ('b2', 'str'), ('x', 'Decimal'), ('d', 'date'), ('f', 'bool')]),
+    ('(SELECT a AS c0, a2 AS c1, b AS c2, b2 AS c3, x AS c4, a + 1 AS c5, length(b) AS c6, upper(b2) AS c7, x * 2 AS c8 FROM #t WHERE a > 0)',
+     [('c0', 'int'), ('c1', 'int'), ('c2', 'str'), ('c3', 'str'), ('c4', 'Decimal'), ('c5', 'int'), ('c6', 'int'), ('c7', 'str'),
+      ('c8', 'Decimal')]),
+    ('(SELECT b, b2, sum(a) AS s, count(*) AS n, max(a2) AS m, min(x) AS lo, max(x) AS hi FROM #t GROUP BY b, b2)',
+     [('b', 'str'), ('b2', 'str'), ('s', 'int'), ('n', 'int'), ('m', 'int'), ('lo', 'Decimal'), ('hi', 'Decimal')]),
+    ('(SELECT c0, c1, c2, c3 FROM (SELECT a AS c0, a2 AS c1, b AS c2, b2 AS c3 FROM #t) ORDER BY c1)',
+     [('c0', 'int'), ('c1', 'int'), ('c2', 'str'), ('c3', 'str')]),
+    ('(SELECT * FROM #u)', [('k', 'int'), ('z', 'str'), ('a', 'str'), ('w', 'Decimal'), ('d', 'date')]),
+    ('(SELECT DISTINCT z, a, k FROM #u ORDER BY k DESC)', [('z', 'str'), ('a', 'str'), ('k', 'int')]),
+    ('(SELECT account, payee, narration, currency, number, cost_number, date, cost_date, year, month FROM #postings)',
+     [('account', 'str'), ('payee', 'str'), ('narration', 'str'), ('currency', 'str'), ('number', 'Decimal'),
+      ('cost_number', 'Decimal'), ('date', 'date'), ('cost_date', 'date'), ('year', 'int'), ('month', 'int')]),
+    ('(SELECT account, comment, date FROM #notes)', [('account', 'str'), ('comment', 'str'), ('date', 'date')]),
+]
+SIBLING_TYPES = ('int', 'str', 'date', 'Decimal', 'bool')
+_NOT_A_NAME = c05gen.KEYWORDS | {'OPEN', 'CLOSE', 'CLEAR', 'ON', 'AT'}
+
+
+def sibling_column_cases(g, rng, n):
+    tabs = [('table', t.frm, t.cols) for t in g.tables()]
+    tabs += [('subquery', frm, cols) for frm, cols in SIBLING_SUBQUERIES]
+    # a subquery over every table that has siblings: its first columns of simple type, bare
+    for t in g.tables():
+        simple = [c for c, ty in t.cols if ty in SIBLING_TYPES and c.upper() not in _NOT_A_NAME]
+        if len(simple) >= 2:
+            tabs.append(('subquery', f'(SELECT {", ".join(simple[:12])} FROM {t.frm})', [(c, dict(t.cols)[c]) for c in simple[:12]]))
+    usable = []
+    for kind, frm, cols in tabs:
+        simple = [(c, ty) for c, ty in cols if ty in SIBLING_TYPES and c.upper() not in _NOT_A_NAME]
+        pairs = [(c1, c2, t1) for c1, t1 in simple for c2, t2 in simple if c1 != c2 and t1 == t2]
+        if pairs:
+            usable.append((kind, frm, simple, pairs))
+    out = []
+    families = ['hidden-key-ok', 'uncovered-target', 'uncovered-target', 'uncovered-order', 'uncovered-order', 'order-key-ok',
+                'plain-order-ok', 'uncovered-target-2', 'pivot-second-not-grouped']
+    while len(out) < n:
+        # subqueries and tables alternate; the first rounds walk through every usable table once
+        kind, frm, simple, pairs = usable[len(out) % len(usable)] if len(out) < 2 * len(usable) else rng.choice(usable)
+        if rng.random() < 0.8:
+            k1, k2, ty = rng.choice(pairs)
+        else:                                   # control: the key has another datatype than the target
+            k1, ty = rng.choice(simple)
+            k2 = rng.choice([c for c, _ in simple if c != k1])
+        others = [c for c, t in simple if c not in (k1, k2)]
+        v = rng.choice(others) if others else k2
+        vt = dict(simple)[v]
+        aggs = ['count(*)', f'count({v})', f'max({v})', f'first({v})'] + ([f'sum({v})'] if vt in ('int', 'Decimal') else [])
+        agg = rng.choice(aggs)
+        desc = rng.choice(['', ' DESC'])
+        fam = rng.choice(families)
+        if fam == 'hidden-key-ok':
+            text, expect = f'SELECT {k1}, {agg} FROM {frm} GROUP BY {rng.choice([k1 + ", " + k2, k2 + ", " + k1, "1, " + k2])}', 'accept'
+        elif fam == 'uncovered-target':
+            text, expect = f'SELECT {k1}, {agg} FROM {frm} GROUP BY {k2}', 'reject'
+        elif fam == 'uncovered-target-2':
+            k3 = rng.choice(others) if others else None
+            if k3 is None:
+                continue
+            text, expect = f'SELECT {k3}, {k1}, {agg} FROM {frm} GROUP BY {k3}, {k2}', 'reject'
+        elif fam == 'uncovered-order':
+            text, expect = f'SELECT {k2}, {agg} FROM {frm} GROUP BY {k2} ORDER BY {k1}{desc}', 'reject'
+        elif fam == 'order-key-ok':
+            text, expect = f'SELECT {k1}, {agg} FROM {frm} GROUP BY {k1}, {k2} ORDER BY {k2}{desc}', 'accept'
+        elif fam == 'plain-order-ok':
+            text, expect = f'SELECT {k1} FROM {frm} ORDER BY {k2}{desc}, {k1}', 'accept'
+        else:       # the second PIVOT BY column is the aggregate; the hidden sibling key does not make it a grouped one
+            text, expect = f'SELECT {k1}, {agg}, count(*) FROM {frm} GROUP BY {k1}, {k2} PIVOT BY {k1}, 2', 'reject'
+        wrap = 'plain'
+        if expect == 'reject' and 'PIVOT' not in text and rng.random() < 0.25:
+            wrap = rng.choice(['from', 'in'])
+            if wrap == 'from':
+                text = 'SELECT * FROM (' + text.replace(f', {agg} FROM', f', {agg} AS w1 FROM', 1) + ')'
+            else:
+                text = f'SELECT k FROM #u WHERE z IN (SELECT first({k1}) FROM {frm} GROUP BY {k2} ORDER BY {k1})'
+        out.append(dict(stream='mutant', rule=f'sibling-{fam}:{kind}:{wrap}', text=text, params=None, expect=expect,
+                        sibling={'kind': kind, 'dtype': ty, 'same_dtype': dict(simple)[k1] == dict(simple)[k2]}))
+    return out
+
+
+# ------------------------------------------------------------------------------------------------
 # Stream 3: corruptions
 
 TOKEN_RE = re.compile(r"\s+|'[^']*'|\"[^\"]*\"|\d{4}-\d{2}-\d{2}|\d+\.\d*|\.\d+|\d+|[A-Za-z_][A-Za-z0-9_]*|#\w*|!=|<=|>=|!~|%\(\w+\)s|%s|.", re.S)
@@ -1206,6 +1388,10 @@ def build_cases(tier, rng):
     for m in overload_sweep(e['reg'], rng, tier):
         m['stream'] = 'overload'
         cases.append(m)
+    for m in arity_sweep(e['reg'], rng, tier):
+        m['stream'] = 'overload'
+        cases.append(m)
+    cases.extend(sibling_column_cases(g, rng, 220 if tier == 'quick' else 2500))
     base = [(m['text'], m['params']) for m in mutants()] + valid_texts
     for i in range(n_corrupt):
         text, params = rng.choice(base)
@@ -1315,6 +1501,27 @@ def run(tier, rng, use_model=True):
         'violation_counts': {sig: n for sig, (v, n) in seen.items()},
         'exhaustive': False,
     }
+    ar = [c for c in cases if c.get('fname')]
+    sib = [c for c in cases if c.get('sibling')]
+
+    def count(items):
+        h = {}
+        for k in items:
+            h[k] = h.get(k, 0) + 1
+        return dict(sorted(h.items()))
+    cov['arity_stream'] = {
+        'statements': len(ar), 'function_names': len({c['fname'] for c in ar}),
+        'registered_function_names': len(env()['reg'].functions) + 1,
+        'by_argument_count': count(str(c['arity']) for c in ar), 'expected': count(c['expect'] for c in ar),
+        'special_names': count(c['fname'] + '/' + str(c['arity']) for c in ar
+                               if c['fname'] in c05gen.META_FUNCS + ('coalesce', 'getitem')),
+        'samples': [c['text'] for c in ar if c['fname'] in c05gen.META_FUNCS][:4]}
+    cov['sibling_column_stream'] = {
+        'statements': len(sib), 'family': count(c['rule'].split(':')[0] for c in sib),
+        'table_kind': count(c['sibling']['kind'] for c in sib), 'wrap': count(c['rule'].split(':')[2] for c in sib),
+        'key_dtype_equals_target_dtype': count(str(c['sibling']['same_dtype']) for c in sib),
+        'dtype': count(c['sibling']['dtype'] for c in sib), 'expected': count(c['expect'] for c in sib),
+        'samples': [c['text'] for c in sib[:2]] + [c['text'] for c in sib if c['sibling']['kind'] == 'subquery'][:3]}
     ecov, eviol = run_e2e(tier, rng)
     cov.update(ecov)
     cov['evaluations'] += ecov['e2e_statements']
